@@ -78,6 +78,9 @@ def main(argv=None):
         print("engine failure: no rule module for %s (%s)" % (pid, e))
         return 2
     rep = Report(pid, tier, seed)
+    rep.level = getattr(mod, "LEVEL", "other")
+    rep.explanation = getattr(mod, "EXPLANATION", "") or (mod.__doc__ or pid)
+    rep.assumptions = list(getattr(mod, "ASSUMPTIONS", []))
     try:
         ctx = Ctx(tier, seed)
         rep.tree_key = ctx.key
